@@ -21,11 +21,14 @@
      decisions; tied to the real generator by correspondence) on='leave' yields the bottom-up order and on='both' brackets
      every node; send(True) when a node is left walks its children again, then the node, then what was queued behind it;
      send(False) on entry skips the children but not the leave.
+   - (models/WalkShallow.v, recurse=False with on='both') send(True) at the entry yield of a child makes its events exactly
+     its bracket - entered once, the whole sub-tree, left once - and the walk goes on behind it; without a send() every child is
+     entered and left and nothing below it is walked; items that stem from full walks run as the full walk of WalkLeave.v does.
    NOT PROVED: termination (holds for finitely many mutations; the oracle bounds the steps), the on='leave'/'both'
    variants UNDER MUTATION (oracle only), scope walks, search/sub consumers, that replace/remove produce legal well-formed heaps (evaluated on every
    observed heap instead), C01 of the final tree. Decided by py/props/C15.py (partial). *)
 From Coq Require Import List Bool Arith.
-From PF Require Import models.WalkMut proofs.WalkMutProofs models.WalkLeave proofs.WalkLeaveProofs.
+From PF Require Import models.WalkMut proofs.WalkMutProofs models.WalkLeave proofs.WalkLeaveProofs models.WalkShallow proofs.WalkShallowProofs.
 Import ListNotations.
 
 Theorem C15_no_node_yielded_twice : forall fuel h root advs,
@@ -79,6 +82,22 @@ Print Assumptions C15_both_send_true_on_leaving_enters_again.
 
 (* non-vacuity: root 0 with children 1, 2; while 1 is yielded the caller replaces 2 by a new object 3 (same handle) and
    1 by 4 with a new child 5: 2 is skipped, 5 is walked next, nothing is yielded twice *)
+Theorem C15_shallow_both_send_true_at_entry_gives_the_bracket_of_the_node : forall t st ds out f, silent (2 * sizes (children t) + 1) ds ->
+  srun (S (bstepss (children t) + S f)) (SN t :: map SI st) (Some true :: ds) out =
+  srun f (map SI st) (skipn (2 * sizes (children t) + 1) ds) (out ++ bracket t).
+Proof. exact shallow_entry_send. Qed.
+Print Assumptions C15_shallow_both_send_true_at_entry_gives_the_bracket_of_the_node.
+
+Theorem C15_shallow_both_without_send_enters_and_leaves_each_child : forall cs st ds out f, silent (2 * length cs) ds ->
+  srun (2 * length cs + f) (map SN cs ++ map SI st) ds out =
+  srun f (map SI st) (skipn (2 * length cs) ds) (out ++ flat_map (fun c => [(label c, false); (label c, true)]) cs).
+Proof. exact shallow_quiet. Qed.
+Print Assumptions C15_shallow_both_without_send_enters_and_leaves_each_child.
+
+Theorem C15_shallow_items_of_full_walks_run_as_the_full_walk : forall f stk ds out, srun f (map SI stk) ds out = brun f stk ds out.
+Proof. exact srun_full. Qed.
+Print Assumptions C15_shallow_items_of_full_walks_run_as_the_full_walk.
+
 Example C15_example :
   let h0 := mkheap 3 [(0, [1; 2])] [(1, Some 0); (2, Some 0)] [(0, 0); (1, 1); (2, 2)] [0; 1; 2] [(0, Some 0); (1, Some 1); (2, Some 2)] [] in
   let h1 := mkheap 6 [(0, [4; 3]); (4, [5])] [(1, Some 0); (2, Some 0); (3, Some 0); (4, Some 0); (5, Some 4)]
